@@ -21,6 +21,17 @@ type SVal struct {
 	ghost *GhostDecl
 	pkgName *types.PkgName
 	cellOf types.Type // set: the value is a pointer to a captured variable; the name denotes its content
+	lval   bool       // address of a struct-typed field reached by selection (denotes the struct stored there)
+}
+
+// rvalue converts the address of an embedded struct (obtained by field selection) into
+// the struct value stored there, in the state the value was read in.
+func (e *Env) rvalue(v SVal) SVal {
+	if !v.lval {
+		return v
+	}
+	T := v.typ.Underlying().(*types.Pointer).Elem()
+	return SVal{t: e.vc.loadStruct(e.stOf(v), v.t, T), typ: T, sort: e.vc.d.sortOf(T), st: v.st}
 }
 
 type Env struct {
@@ -560,6 +571,15 @@ func (e *Env) evalBinary(n *EBinary) SVal {
 		return mathBool(fmt.Sprintf("(%s %s %s)", op, a, b))
 	}
 	a, b := e.eval(n.X), e.eval(n.Y)
+	if n.Op == "==" || n.Op == "!=" {
+		if a.lval && b.lval {
+			a, b = e.rvalue(a), e.rvalue(b)
+		} else if a.lval && strings.HasPrefix(b.sort, "S.") {
+			a = e.rvalue(a)
+		} else if b.lval && strings.HasPrefix(a.sort, "S.") {
+			b = e.rvalue(b)
+		}
+	}
 	switch n.Op {
 	case "==", "!=":
 		var eq string
@@ -662,10 +682,11 @@ func (e *Env) selectField(x SVal, name string) SVal {
 			s, _ := isStruct(S)
 			ft := s.Field(i).Type()
 			if _, ok := isStruct(ft); ok {
-				cur = SVal{t: vc.embTermSpec(e, S, i, cur.t), typ: types.NewPointer(ft), sort: "Int", st: cur.st}
+				cur = SVal{t: vc.embTermSpec(e, S, i, cur.t), typ: types.NewPointer(ft), sort: "Int", st: cur.st, lval: true}
 			} else {
 				hn, hs := vc.d.fieldHeap(S, i)
 				cur = SVal{t: fmt.Sprintf("(select %s %s)", vc.heap(e.stOf(cur), hn, hs), cur.t), typ: ft, sort: vc.d.sortOf(ft), st: cur.st}
+				e.typeSide(cur.t, ft)
 			}
 		} else {
 			s, ok := isStruct(T)
@@ -766,6 +787,18 @@ func (e *Env) evalIndex(n *EIndex) SVal {
 	}
 	e.fail("cannot index %s", x.typ)
 	return SVal{}
+}
+
+// typeSide records the facts every value of the static type satisfies (integer range,
+// slice header well-formedness) for a term read from the heap inside a contract.
+func (e *Env) typeSide(term string, typ types.Type) {
+	switch typ.Underlying().(type) {
+	case *types.Basic, *types.Slice:
+		f := e.vc.d.rangeAssume(term, typ, "", 0)
+		if f != "" {
+			e.addSide(f, term)
+		}
+	}
 }
 
 // rangeSide records the type-range fact of a heap-read term as a side fact.
@@ -1234,8 +1267,16 @@ func (e *Env) applySpecFunc(sf *SpecFunc, args []Expr) SVal {
 		e.fail("spec function %s expects %d arguments", sf.Name, len(sf.Params))
 	}
 	var vals []SVal
-	for _, a := range args {
-		vals = append(vals, e.eval(a))
+	for i, a := range args {
+		v := e.eval(a)
+		if v.lval {
+			if _, pt := e.sortOfTypeString(sf.Params[i].Type); pt != nil {
+				if _, isS := isStruct(pt); isS {
+					v = e.rvalue(v)
+				}
+			}
+		}
+		vals = append(vals, v)
 	}
 	retSort, retTyp := e.sortOfTypeString(sf.Ret)
 	bind := func() map[string]SVal {
